@@ -9,16 +9,41 @@ Definition to64 := f32_to_f64.
 Definition to32 := f64_to_f32.
 Definition d0 : Z := 0.
 
-(* angle(ux, uy, vx, vy) *)
-Definition angle (ux uy vx vy : Z) : Z :=
-  let unorm := fsqrt F64 (dadd (dmul ux ux) (dmul uy uy)) in
-  let vnorm := fsqrt F64 (dadd (dmul vx vx) (dmul vy vy)) in
-  let norm := dmul unorm vnorm in
-  let c := ddiv (dadd (dmul ux vx) (dmul uy vy)) norm in
-  let ret := if fle F64 c (dneg k_one) then k_pi
-             else if fge F64 c k_one then d0
-             else goacos c in
-  if flt F64 (dmul ux vy) (dmul uy vx) then dneg ret else ret.
+(* numeric operations of the arc code, so that it can be written once: float64 instance A64 below (compared
+   with render.go), R instance in proofs/ArcR.v *)
+Record arcops (T : Type) := mkArcOps {
+  a_add : T -> T -> T; a_sub : T -> T -> T; a_mul : T -> T -> T; a_div : T -> T -> T; a_neg : T -> T;
+  a_sqrt : T -> T; a_gt : T -> T -> bool; a_zero : T; a_one : T; a_two : T;
+  a_le : T -> T -> bool; a_ge : T -> T -> bool; a_lt : T -> T -> bool;
+  a_pi : T; a_twopi : T; a_acos : T -> T; a_cos : T -> T; a_sin : T -> T
+}.
+Arguments a_add {T}. Arguments a_sub {T}. Arguments a_mul {T}. Arguments a_div {T}. Arguments a_neg {T}.
+Arguments a_sqrt {T}. Arguments a_gt {T}. Arguments a_zero {T}. Arguments a_one {T}. Arguments a_two {T}.
+Arguments a_le {T}. Arguments a_ge {T}. Arguments a_lt {T}. Arguments a_pi {T}. Arguments a_twopi {T}.
+Arguments a_acos {T}. Arguments a_cos {T}. Arguments a_sin {T}.
+
+Definition A64 : arcops Z :=
+  mkArcOps Z dadd dsub dmul ddiv dneg (fsqrt F64) (fgt F64) d0 k_one k_two
+           (fle F64) (fge F64) (flt F64) k_pi k_twopi goacos gocos gosin.
+
+(* angle(ux, uy, vx, vy): the signed angle from u to v *)
+Definition angle_gen {T} (O : arcops T) (ux uy vx vy : T) : T :=
+  let unorm := a_sqrt O (a_add O (a_mul O ux ux) (a_mul O uy uy)) in
+  let vnorm := a_sqrt O (a_add O (a_mul O vx vx) (a_mul O vy vy)) in
+  let norm := a_mul O unorm vnorm in
+  let c := a_div O (a_add O (a_mul O ux vx) (a_mul O uy vy)) norm in
+  let ret := if a_le O c (a_neg O (a_one O)) then a_pi O
+             else if a_ge O c (a_one O) then a_zero O
+             else a_acos O c in
+  if a_lt O (a_mul O ux vy) (a_mul O uy vx) then a_neg O ret else ret.
+Definition angle : Z -> Z -> Z -> Z -> Z := angle_gen A64.
+
+(* the point of the ellipse (centre, radii, rotation given by its cosine and sine) at parameter theta *)
+Definition arc_point_gen {T} (O : arcops T) (cx cy rx ry cosphi sinphi theta : T) : T * T :=
+  let x := a_mul O rx (a_cos O theta) in
+  let y := a_mul O ry (a_sin O theta) in
+  (a_sub O (a_add O cx (a_mul O cosphi x)) (a_mul O sinphi y),
+   a_add O (a_add O cy (a_mul O sinphi x)) (a_mul O cosphi y)).
 
 Definition arc_segment (s : S) (cx cy theta1 theta2 rx ry cosphi sinphi : Z) : S :=
   let hdt := dmul (dsub theta2 theta1) k_half in
@@ -30,11 +55,11 @@ Definition arc_segment (s : S) (cx cy theta1 theta2 rx ry cosphi sinphi : Z) : S
   let y1 := dmul ry (dadd sin1 (dmul t cos1)) in
   let x2 := dmul rx (dadd cos2 (dmul t sin2)) in
   let y2 := dmul ry (dsub sin2 (dmul t cos2)) in
-  let x3 := dmul rx cos2 in
-  let y3 := dmul ry sin2 in
   let px (x y : Z) := absX N32 s (to32 (dsub (dadd cx (dmul cosphi x)) (dmul sinphi y))) in
   let py (x y : Z) := absY N32 s (to32 (dadd (dadd cy (dmul sinphi x)) (dmul cosphi y))) in
-  emit_keep N32 s (RCubeTo (px x1 y1) (py x1 y1) (px x2 y2) (py x2 y2) (px x3 y3) (py x3 y3)).
+  let p3 := arc_point_gen A64 cx cy rx ry cosphi sinphi theta2 in
+  emit_keep N32 s (RCubeTo (px x1 y1) (py x1 y1) (px x2 y2) (py x2 y2)
+                           (absX N32 s (to32 (fst p3))) (absY N32 s (to32 (snd p3)))).
 
 Fixpoint arc_loop (k : nat) (i n : Z) (s : S) (cx cy theta1 dtheta rx ry cosphi sinphi : Z) : S :=
   match k with
@@ -52,15 +77,7 @@ Definition set_pst_none (s : S) : S :=
       (r_lod0 s) (r_lod1 s) (r_csel s) (r_nsel s) (r_disabled s) 0 (r_psx s) (r_psy s) (r_paint s)
       (r_creg s) (r_nreg s) (z_penx s) (z_peny s) (z_firstx s) (z_firsty s) (r_log s).
 
-(* Steps 1-3 of the endpoint-to-centre conversion (render.go:470-520), written once over an abstract
-   numeric type: float64 instance below (compared with the Go code), R instance in proofs/ArcR.v. *)
-Record arcops (T : Type) := mkArcOps {
-  a_add : T -> T -> T; a_sub : T -> T -> T; a_mul : T -> T -> T; a_div : T -> T -> T; a_neg : T -> T;
-  a_sqrt : T -> T; a_gt : T -> T -> bool; a_zero : T; a_one : T; a_two : T
-}.
-Arguments a_add {T}. Arguments a_sub {T}. Arguments a_mul {T}. Arguments a_div {T}. Arguments a_neg {T}.
-Arguments a_sqrt {T}. Arguments a_gt {T}. Arguments a_zero {T}. Arguments a_one {T}. Arguments a_two {T}.
-
+(* Steps 1-3 of the endpoint-to-centre conversion (render.go:470-520) *)
 Record arccenter (T : Type) := mkCenter {
   ac_rx : T; ac_ry : T; ac_cx : T; ac_cy : T; ac_x1p : T; ac_y1p : T; ac_cxp : T; ac_cyp : T
 }.
@@ -93,10 +110,23 @@ Definition arc_center_gen {T} (O : arcops T) (x1 y1 x2 y2 Rx Ry cosphi sinphi : 
     let cy := a_add O (a_add O (a_mul O sinphi cxp) (a_mul O cosphi cyp)) (a_div O (a_add O y1 y2) (a_two O)) in
     mkCenter T Rx Ry cx cy x1p y1p cxp cyp.
 
-Definition A64 : arcops Z := mkArcOps Z dadd dsub dmul ddiv dneg (fsqrt F64) (fgt F64) d0 k_one k_two.
 
 (* the centre parameterisation of AbsArcTo: a pure function of the pen (in viewBox space) and the arguments.
    Returns (n, cx, cy, theta1, deltaTheta, Rx, Ry, cosPhi, sinPhi). *)
+(* Step 4: start angle and sweep from the centre, adjusted by the sweep flag *)
+Definition arc_angles_gen {T} (O : arcops T) (c : arccenter T) (sweep : bool) : T * T :=
+  let Rx := ac_rx c in let Ry := ac_ry c in
+  let ax := a_div O (a_sub O (ac_x1p c) (ac_cxp c)) Rx in
+  let ay := a_div O (a_sub O (ac_y1p c) (ac_cyp c)) Ry in
+  let bx := a_div O (a_sub O (a_neg O (ac_x1p c)) (ac_cxp c)) Rx in
+  let by_ := a_div O (a_sub O (a_neg O (ac_y1p c)) (ac_cyp c)) Ry in
+  let theta1 := angle_gen O (a_one O) (a_zero O) ax ay in
+  let dtheta := angle_gen O ax ay bx by_ in
+  let dtheta :=
+    if sweep then (if a_lt O dtheta (a_zero O) then a_add O dtheta (a_twopi O) else dtheta)
+    else (if a_gt O dtheta (a_zero O) then a_sub O dtheta (a_twopi O) else dtheta) in
+  (theta1, dtheta).
+
 Record arcp := mkArcP { ap_n : Z; ap_cx : Z; ap_cy : Z; ap_t1 : Z; ap_dt : Z; ap_rx : Z; ap_ry : Z; ap_cos : Z; ap_sin : Z }.
 
 Definition arc_params (x1 y1 : Z) (Rx0 Ry0 : Z) (rot : f32) (large sweep : bool) (x y : f32) : arcp :=
@@ -107,15 +137,7 @@ Definition arc_params (x1 y1 : Z) (Rx0 Ry0 : Z) (rot : f32) (large sweep : bool)
     let sinphi := gosin phi in
     let c := arc_center_gen A64 x1 y1 x2 y2 Rx0 Ry0 cosphi sinphi (Bool.eqb large sweep) in
     let Rx := ac_rx c in let Ry := ac_ry c in
-    let ax := ddiv (dsub (ac_x1p c) (ac_cxp c)) Rx in
-    let ay := ddiv (dsub (ac_y1p c) (ac_cyp c)) Ry in
-    let bx := ddiv (dsub (dneg (ac_x1p c)) (ac_cxp c)) Rx in
-    let by_ := ddiv (dsub (dneg (ac_y1p c)) (ac_cyp c)) Ry in
-    let theta1 := angle k_one d0 ax ay in
-    let dtheta := angle ax ay bx by_ in
-    let dtheta :=
-      if sweep then (if flt F64 dtheta d0 then dadd dtheta k_twopi else dtheta)
-      else (if fgt F64 dtheta d0 then dsub dtheta k_twopi else dtheta) in
+    let '(theta1, dtheta) := arc_angles_gen A64 c sweep in
     let n := match ftrunc F64 (fceil F64 (ddiv (dabs dtheta) k_segAngle)) with
              | Some i => if (0 <? i) && (i <? 1000) then i else 0
              | None => 0 end in
